@@ -95,7 +95,9 @@ namespace nmtools::functional
                     )
                 );
                 #if 1
-                if constexpr (is_broadcast_view_v<operand_t>) {
+                // NOTE: only ufuncs with more than one operand wrap their operands in broadcast_to,
+                // a broadcast_to under a unary ufunc was written by the user and is part of the function
+                if constexpr (is_broadcast_view_v<operand_t> && (N > 1)) {
                     // TODO: refactor ufuncs
                     // skip broadcasting
                     // NOTE: get_operands returns by value, keep it alive while sub_operand is used
